@@ -8,7 +8,7 @@ import (
 )
 
 func init() {
-	register(&Rule{ID: "C16.d", Doc: "token positions are data, not decisions: outside the lexer a position field is only copied, put into an error, or printed as the line of a marker — and the line a marker prints is its token's start line", Floor: 10, Run: c16d})
+	register(&Rule{ID: "C16.d", Doc: "token positions are data, not decisions: outside the lexer a position field is only copied, put into an error, or printed as the line of a marker — and the line a marker prints is its token's start line", Floor: 6, Run: c16d})
 }
 
 var positionFields = map[string]bool{"LineNumber": true, "StartCharIndex": true, "StartUtf8CharIndex": true, "EndLineNumber": true, "EndCharIndex": true, "EndUtf8CharIndex": true}
@@ -131,5 +131,5 @@ func c16d(c *Ctx) {
 			c.Check(fromLine(a, 0), fmt.Sprintf("%s/marker-line@%d", c.W.FuncKey(f), c.T(f).callOrd[ci]), c.W.Pos(ci.Pos()), "the marker line is a token's LineNumber (plus a line offset)", "the line printed by this marker is "+pretty(c.term(f, a))+", not the LineNumber of a token")
 		}
 	}
-	c.Check(nReads >= 12 && nMarker >= 2, "positions/scanned", "-", fmt.Sprintf("%d position reads outside the lexer, %d marker lines", nReads, nMarker), fmt.Sprintf("expected at least 12 position reads and 2 marker calls, found %d and %d", nReads, nMarker))
+	c.Check(nReads >= 6 && nMarker >= 1, "positions/scanned", "-", fmt.Sprintf("%d position reads outside the lexer, %d marker lines", nReads, nMarker), fmt.Sprintf("expected at least 6 position reads and 1 marker call, found %d and %d", nReads, nMarker))
 }
